@@ -840,7 +840,8 @@ class ExternalTensor(TensorBase, _protocols.TensorProtocol):  # pylint: disable=
             # Use uint8 to read in the full byte. Otherwise ml_dtypes.int4 will clip the values
             # No need to set endianness for uint8
             dt = np.dtype(np.uint8)
-            count = self.size // 2 + self.size % 2
+            # Number of packed bytes: ceil(size * bitwidth / 8)
+            count = self.nbytes
         else:
             # Handle the byte order correctly by always using little endian
             dt = np.dtype(self.dtype.numpy()).newbyteorder("<")
@@ -907,6 +908,10 @@ class ExternalTensor(TensorBase, _protocols.TensorProtocol):  # pylint: disable=
         _check_path_containment() to enforce path containment.
         """
         self._check_validity()
+        if self.size == 0:
+            # An empty tensor has no bytes and is never memory mapped (see _load)
+            self._check_path_containment()
+            return b""
         if self.raw is None:
             self._load()
         assert self.raw is not None
@@ -1337,6 +1342,10 @@ class PackedTensor(TensorBase, _protocols.TensorProtocol, Generic[TArrayCompatib
         """
         array = self.numpy_packed()
         # ONNX IR returns the unpacked arrays
+        if self.dtype.bitwidth == 2:
+            return _type_casting.unpack_2bitx4(array, self.shape.numpy()).view(
+                self.dtype.numpy()
+            )
         return _type_casting.unpack_4bitx2(array, self.shape.numpy()).view(self.dtype.numpy())
 
     def numpy_packed(self) -> npt.NDArray[np.uint8]:
